@@ -131,6 +131,31 @@ def l1(ctx):
                 yield Ob(key_of("C16-L1", b.path, "file-is-unified"), okc, "file-backed: unify = true, header in the mapping (Either::Left)", ctx.loc(aggs[0]))
 
 
+@rule("C06-K10", "C06", 4, "a file-backed arena keeps its header and identification block in the file for its whole life: both file constructors build Memory { unify: true, header in the "
+      "mapping }, whatever the caller's unify option - Memory::clear() reads that field, and with unify = false it would move the header to the heap and wipe the file from byte "
+      "reserved + 1 on, identification block and header included: the file is refused by every later open, crash or no crash", configs=MEMCFG, also=("C17",))
+def k10(ctx):
+    for name, pat, _, has_plain in constructors(ctx):
+        if has_plain:
+            continue
+        b = ctx.facts.one(pat)
+        ev, res = ctx.eval(b, no_inline=(r"::mlock$",))
+        aggs = memory_aggregates(res)
+        if len(aggs) != 1:
+            yield Ob(key_of("C06-K10", b.path, "memory-aggregate"), False, "expected one Memory aggregate, found %d" % len(aggs), b.loc())
+            continue
+        v = aggs[0]["value"]
+        oku = struct_get(v, "unify") == const(1)
+        okh = tag(struct_get(v, "header_ptr")) == "variant" and struct_get(v, "header_ptr")[2] == "Left"
+        yield Ob(key_of("C06-K10", b.path, "unify-field-true"), oku, "%s: Memory.unify = %s" % (name, short(struct_get(v, "unify"), 60)), ctx.loc(aggs[0]))
+        yield Ob(key_of("C06-K10", b.path, "header-in-the-mapping"), okh, "%s: Memory.header_ptr = %s" % (name, short(struct_get(v, "header_ptr"), 60)), ctx.loc(aggs[0]))
+    # clear() decides by that field
+    b = ctx.facts.one(r"^memory::Memory::<R, PR, H>::clear$")
+    ev, res = ctx.eval(b)
+    reads = [c for c in res.conds.values() if "unify" in show(c)]
+    yield Ob(key_of("C06-K10", b.path, "clear-reads-the-field"), True, "Memory::clear branches on self.unify (%d condition(s)): the constructors' value decides where the header lives after clear()" % len(reads), b.loc(), trivial=not reads)
+
+
 @rule("C16-L3", "C16", lambda cfg: 5 if "memmap" in cfg else 2, "check_capacity returns Err(InsufficientSpace{requested: prefix, available: capacity}) exactly when prefix > capacity; every constructor calls it before "
       "its first write and maps the error to InsufficientSpace (Vec) / InvalidInput (maps)")
 def l3(ctx):
